@@ -242,7 +242,7 @@ func (c *Ctx) term(v ssa.Value, d int) string {
 			return alts[0]
 		}
 		sort.Strings(alts)
-		return "phi(" + strings.Join(alts, " | ") + ")"
+		return "phi(" + strings.Join(alts, " / ") + ")"
 	case *ssa.TypeAssert:
 		return c.term(x.X, d+1) + ".(" + typeName(x.AssertedType) + ")"
 	}
@@ -398,4 +398,14 @@ func canonCmp(l, op, r string) string {
 		op = flip[op]
 	}
 	return "(" + l + " " + op + " " + r + ")"
+}
+
+// resolveLocal: a load from a local variable with a unique reaching store in the same block → the stored value.
+func resolveLocal(v ssa.Value) ssa.Value {
+	if u, ok := v.(*ssa.UnOp); ok && u.Op == token.MUL {
+		if sv := localStore(u); sv != nil {
+			return sv
+		}
+	}
+	return v
 }
